@@ -60,7 +60,7 @@ func main() { lib.Main("C12", run) }
 
 func source(cmd string, args []numx.Val, typed bool) string {
 	var sb strings.Builder
-	sb.WriteString("use math; " + cmd)
+	sb.WriteString(cmd)
 	for _, a := range args {
 		if typed {
 			sb.WriteString(" " + a.Typed())
@@ -71,7 +71,7 @@ func source(cmd string, args []numx.Val, typed bool) string {
 	return sb.String()
 }
 
-func show(cmd string, args []numx.Val) string { return source(cmd, args, false)[10:] }
+func show(cmd string, args []numx.Val) string { return source(cmd, args, false) }
 
 func sig(cmd string, args []numx.Val) string {
 	var ss []string
@@ -192,7 +192,7 @@ func check(ev *eval.Evaler, fc fcase, typed bool) (kind, desc string, err error)
 		return "", "", lib.Infra("evaluation of %q did not return", code)
 	}
 	if o.Panic != "" {
-		return "panic", code[10:] + " panics: " + strings.SplitN(o.Panic, "\n", 2)[0], nil
+		return "panic", code + " panics: " + strings.SplitN(o.Panic, "\n", 2)[0], nil
 	}
 	if o.Err != nil && elv.ErrClass(o.Err) != "exception" {
 		return "", "", lib.Infra("rendered call %q is not valid Elvish: %v", code, o.Err)
@@ -209,7 +209,7 @@ func check(ev *eval.Evaler, fc fcase, typed bool) (kind, desc string, err error)
 		gotDesc = "[" + strings.Join(ss, " ") + "]"
 	}
 	fail := func(k, want string) (string, string, error) {
-		return k, fmt.Sprintf("%s -> %s; ArithF.tla prescribes %s", code[10:], gotDesc, want), nil
+		return k, fmt.Sprintf("%s -> %s; ArithF.tla prescribes %s", code, gotDesc, want), nil
 	}
 	switch out.T {
 	case "exc":
@@ -357,6 +357,10 @@ func cfg(consts string, invs ...string) []byte {
 func run(c *lib.Ctx) error {
 	dir := c.SpecDir("Arith")
 	ev := elv.New()
+	// math: is imported once (importing it in every evaluation adds a global slot per call)
+	if o := elv.Run(ev, "use math"); o.Err != nil || o.Panic != "" {
+		return lib.Infra("use math: %v %s", o.Err, o.Panic)
+	}
 	if c.Replay != "" {
 		return replay(c, ev)
 	}
